@@ -1254,7 +1254,7 @@ def gen_cases(ck, info):
         for ops in lists_upto(TENSORS, maxlen_scan if mod in defs0.get("scan", []) else 2):
             for c in scan_variants(ops):
                 cases.append(finish_case(c, rng))
-        for _ in range(ck.pick(40, 0)):
+        for _ in range(ck.pick(16, 0)):
             for c in scan_variants(rand_list(TENSORS, 3)):
                 cases.append(finish_case(c, rng))
         for _ in range(longer // 3):
@@ -1986,6 +1986,7 @@ def run_nested(ck: core.Check, env: Env):
         return stats
     esc = getattr(ck, "c19_escalated", False)
     progs = nest.gen_programs(rng, P, mods, ck.pick(150 if esc else 45, 400), ck.pick(50 if esc else 15, 150))
+    progs += nest.add_failing(rng, progs, ck.pick(90 if esc else 36, 240))  # one malformed callback somewhere in the tree
     try:
         models = ck.driver().ask_many("C19", [nest.model_request(p_, nest.STEPS) for p_ in progs])
     except Exception as e:  # noqa: BLE001
